@@ -87,6 +87,22 @@ var inProcKinds = []Config{
 	{Kind: "script"}, {Kind: "script", Mods: true}, {Kind: "script", NVar: 2, Bltn: true}, {Kind: "script", Mods: true, NVar: 12, Bltn: true},
 	{Kind: "srcmod-body"}, {Kind: "srcmod-body", Mods: true}, {Kind: "srcmod-main"}, {Kind: "srcmod-main", Mods: true, NVar: 1},
 	{Kind: "fileimp-body"}, {Kind: "fileimp-main", Mods: true},
+	// other source modules configured (and imported around the module under test)
+	{Kind: "bare", Src: 1}, {Kind: "bare", Src: 3, Mods: true}, {Kind: "bare-body", Src: 2, Pre: 1}, {Kind: "script", Src: 3},
+	{Kind: "script", Src: 2, Mods: true, NVar: 2}, {Kind: "srcmod-body", Src: 3, Pre: 2, Post: 1}, {Kind: "srcmod-main", Src: 1},
+	{Kind: "fileimp-body", Src: 2, Post: 2},
+}
+
+// srcConfig: a configuration with n other source modules, for texts that import them.
+func srcConfig(r *lib.RNG, n int) Config {
+	c := Config{Kind: []string{"bare", "bare", "script", "script", "bare-body", "srcmod-body", "fileimp-body", "srcmod-main"}[r.Intn(8)], Src: n}
+	c.Mods = r.Chance(1, 4)
+	if strings.HasSuffix(c.Kind, "-body") {
+		c.Pre, c.Post = r.Intn(n+1), r.Intn(n+1)
+	} else if r.Chance(1, 4) {
+		c.NVar = 1 + r.Intn(3)
+	}
+	return c
 }
 
 func pickConfig(r *lib.RNG) Config {
@@ -323,7 +339,14 @@ func (w *worker) run(quota int, nWorkers int, sampleStride int) {
 			w.dist["bytes:nul"]++
 		}
 		w.eval(src, Config{Kind: "bare", Trc: r.Chance(1, 50), Mods: r.Chance(1, 4)}, mut)
-		w.eval(src, pickConfig(r), mut)
+		if r.Chance(1, 5) { // the same text with imports of configured source modules in front of / behind it
+			n := 1 + r.Intn(3)
+			src2, m2 := withImports(r, src, n)
+			w.dist["mutation:"+m2]++
+			w.eval(src2, srcConfig(r, n), mut+"+"+m2)
+		} else {
+			w.eval(src, pickConfig(r), mut)
+		}
 		if n%sampleStride == 0 && len(src) <= 1536 {
 			w.samples = append(w.samples, src)
 		}
@@ -438,8 +461,15 @@ var (
 )
 
 func violate(src []byte, cfg Config, mut string, f Finding) {
+	violateIn("fuzz:"+cfg.Kind, src, cfg, mut, f)
+}
+
+func violateIn(stream string, src []byte, cfg Config, mut string, f Finding) {
 	exp := "a result or an error value whose positions lie inside the input"
-	res.Violate(lib.Violation{Signature: f.Sig, Stream: "fuzz:" + cfg.Kind, Input: replayInput{encSrc(src), cfg, mut},
+	if strings.Contains(f.Sig, "error-position-missing") {
+		exp = "an error value that names the file and line of the offending token"
+	}
+	res.Violate(lib.Violation{Signature: f.Sig, Stream: stream, Input: replayInput{encSrc(src), cfg, mut},
 		Observed: clip(f.Observed, 600), Expected: exp,
 		Oracle: "no panic, no hang (> 5 s for ≤ 4 KiB), every reported error position inside the input it names (stage " + f.Stage + ")"})
 }
@@ -480,6 +510,11 @@ func main() {
 
 	lib.RunProbes(res, "C04", flags.Known)
 	ownProbes()
+	{
+		t1 := time.Now()
+		targetedStage(scratch)
+		res.Extra = map[string]interface{}{"targeted_s": time.Since(t1).Seconds()}
+	}
 
 	seeds, origin := loadSeeds()
 	for k, v := range origin {
@@ -559,7 +594,7 @@ func main() {
 		}
 	}
 	hangSeen := len(hangs) > 0
-	res.Extra = map[string]interface{}{"behaviour_features": len(featAll), "workers": nW, "seeds": len(seeds)}
+	res.Extra["behaviour_features"], res.Extra["workers"], res.Extra["seeds"] = len(featAll), nW, len(seeds)
 
 	res.Extra["fuzz_s"] = fuzzS
 	if hangSeen {
@@ -593,6 +628,108 @@ func main() {
 		res.Extra["model_s"] = time.Since(t1).Seconds()
 	}
 	res.Write(flags.Out)
+}
+
+// targetedStage: the erroneous token at the first / last byte of the main source and of a source-module body,
+// with 1..3 other source modules imported before and/or after it, under the compiler and the script entry
+// points. Deterministic (no randomness): every form × placement × configuration is evaluated. Besides the
+// general oracle the configuration carries the place of the erroneous token (Config.Want), which a reported
+// compile-error position must equal.
+func targetedStage(scratch string) {
+	type form struct {
+		name, text string
+		rel        int // offset of the erroneous token inside text
+		nvar       int
+	}
+	args := strings.Repeat("1, ", 256)
+	forms := []form{
+		{"assign-builtin", "len = 5", 0, 0},
+		{"assign-builtin-import", "len = import(\"m1\")", 0, 0},
+		{"opassign-builtin-imports", "copy += [import(\"m1\"), import(\"m1\")]", 0, 0},
+		{"import-big", "import(\"big\")", 0, 0},
+		{"import-big-selector", "import(\"big\").v1", 0, 0},
+		{"define-import-big", "x := import(\"big\")", 5, 0},
+		{"unresolved-assign", "nosuch = import(\"m1\")", 0, 0},
+		{"unresolved-ident", "nosuch", 0, 0},
+		{"unresolved-one-byte", "q", 0, 0},
+		{"unresolved-callee", "nosuch(import(\"m1\"))", 0, 0},
+		{"unresolved-after-import", "import(\"m1\")(nosuch)", 13, 0},
+		{"break", "break", 0, 0},
+		{"continue", "continue", 0, 0},
+		{"return", "return", 0, 0},
+		{"return-import", "return import(\"m1\")", 0, 0},
+		{"redeclared-variable", "v0 := import(\"m1\")", 0, 1},
+		{"redeclared-second", "x := 1\nx := import(\"m1\")", 7, 0},
+		{"module-not-found", "import(\"nosuch\")", 0, 0},
+		{"empty-module-name", "import(\"\")", 0, 0},
+		{"import-self", "import(\"" + moduleName + "\")", 0, 0},
+		{"define-selector", "a.b := import(\"m1\")", 0, 0},
+		{"too-many-arguments", "len(" + args + "1)", 0, 0},
+		{"export-in-function", "func() { export import(\"m1\") }()", 9, 0},
+	}
+	dir := scratch + "/targeted"
+	_ = os.MkdirAll(dir, 0o700)
+	env := NewEnv(dir)
+	reported := map[string]int{}
+	for _, f := range forms {
+		for k := 1; k <= 3; k++ {
+			type placed struct {
+				name, text string
+				off        int
+			}
+			pre, post := importLines("ia", k), "\n"+importLines("ib", k)
+			pls := []placed{{"alone", f.text, f.rel}, {"imports-before", pre + f.text, len(pre) + f.rel}, {"imports-after", f.text + post, f.rel},
+				{"imports-around", pre + f.text + post, len(pre) + f.rel}}
+			if k == 1 {
+				const sameLine = "ia1 := import(\"m1\"); "
+				pls = append(pls, placed{"alone-newline", f.text + "\n", f.rel}, placed{"same-line", sameLine + f.text, len(sameLine) + f.rel})
+			}
+			var cfgs []Config
+			cfgs = append(cfgs, Config{Kind: "bare", Src: k, NVar: f.nvar}, Config{Kind: "script", Src: k, NVar: f.nvar})
+			if k == 2 {
+				cfgs = append(cfgs, Config{Kind: "bare", Src: k, NVar: f.nvar, Mods: true}, Config{Kind: "script", Src: k, NVar: f.nvar, Mods: true})
+			}
+			for _, kind := range []string{"bare-body", "srcmod-body", "fileimp-body"} {
+				cfgs = append(cfgs, Config{Kind: kind, Src: k}, Config{Kind: kind, Src: k, Pre: k}, Config{Kind: kind, Src: k, Post: k})
+			}
+			for _, pl := range pls {
+				for _, cfg := range cfgs {
+					file := mainName
+					if strings.HasSuffix(cfg.Kind, "-body") {
+						file = moduleName
+					}
+					cfg.Want = fmt.Sprintf("%s@%d", file, pl.off)
+					src := []byte(pl.text)
+					finds, feats := env.Eval(src, cfg, false)
+					res.Evaluations++
+					res.Count("targeted:"+cfg.Kind, f.name+"/"+pl.name+"/"+cfg.String(), true)
+					outcome := "no-error"
+					for _, ft := range feats {
+						if strings.Contains(ft, ":cerr:") {
+							outcome = "compile-error"
+						} else if strings.Contains(ft, ":perr:") {
+							outcome = "parse-error"
+						}
+					}
+					if len(finds) > 0 {
+						outcome = "finding"
+					}
+					res.Dist("targeted-outcome:" + outcome)
+					if outcome != "compile-error" {
+						res.Dist("targeted-" + outcome + ":" + f.name + "/" + cfg.Kind)
+					}
+					for _, fd := range finds {
+						key := fd.Sig + "|" + cfg.Kind
+						if reported[key] >= 1 {
+							continue
+						}
+						reported[key]++
+						violateIn("targeted:"+cfg.Kind, src, cfg, "targeted:"+f.name+"/"+pl.name, fd)
+					}
+				}
+			}
+		}
+	}
 }
 
 type intImportable struct{}
